@@ -552,7 +552,7 @@ func UnmarshalVectorYAML(value *yaml.Node) (*GeneralizedType, error) {
 		case "length":
 			var length big.Int
 			if err := length.UnmarshalText([]byte(v.Value)); err != nil {
-				return nil, err
+				return nil, parseError(v, "vector length '%s' is not an integer", v.Value)
 			}
 			if length.Sign() < 0 {
 				return nil, parseError(v, "vector length cannot be negative")
@@ -896,7 +896,7 @@ func (dimension *ArrayDimension) UnmarshalYAML(value *yaml.Node) error {
 	if value.Tag == "!!int" {
 		var length big.Int
 		if err := length.UnmarshalText([]byte(value.Value)); err != nil {
-			return err
+			return parseError(value, "array dimension length '%s' is not an integer", value.Value)
 		}
 		if length.Sign() < 0 {
 			return parseError(value, "array dimension length cannot be negative")
@@ -1016,7 +1016,7 @@ func UnmarshalEnumValues(flags bool, value *yaml.Node) (*EnumValues, error) {
 				}
 			} else {
 				if err := val.IntegerValue.UnmarshalText([]byte(v.Value)); err != nil {
-					return nil, err
+					return nil, parseError(v, "the value '%s' of '%s' is not an integer", v.Value, k.Value)
 				}
 			}
 
